@@ -31,6 +31,7 @@ type DoubleFs struct {
 	FailAt  map[int]bool // control operation indices that fail with EIO
 	BadFrom map[string]int64 // absolute file name -> first unreadable offset
 	MaxRead int              // >0: reads return at most this many bytes (short reads)
+	ShortAt map[string]int   // absolute file name -> positional reads of this file return at most this many bytes, without an error
 	Log     []string
 	LogOn   bool
 }
@@ -38,7 +39,7 @@ type DoubleFs struct {
 const dirSizeConst = 4096
 
 func NewDoubleFs(tmut time.Time) *DoubleFs {
-	return &DoubleFs{inner: afero.NewOsFs(), TMut: tmut, live: map[*DoubleFile]string{}, FailAt: map[int]bool{}, BadFrom: map[string]int64{}}
+	return &DoubleFs{inner: afero.NewOsFs(), TMut: tmut, live: map[*DoubleFile]string{}, FailAt: map[int]bool{}, BadFrom: map[string]int64{}, ShortAt: map[string]int{}}
 }
 
 var errInjected = &os.PathError{Op: "injected", Path: "", Err: syscall.EIO}
@@ -336,6 +337,14 @@ func (f *DoubleFile) ReadAt(p []byte, off int64) (int, error) {
 	q, err := f.limit(p, off, true)
 	if err != nil {
 		return 0, err
+	}
+	f.d.mu.Lock()
+	sa := f.d.ShortAt[f.name]
+	f.d.mu.Unlock()
+	if sa > 0 && len(q) > sa {
+		// a filesystem whose positional read comes back short without an error (os.File never does; a FUSE or network
+		// filesystem behind afero may): only for files whose readers are written to cope (io.ReadFull over a SectionReader)
+		return f.File.ReadAt(q[:sa], off)
 	}
 	n, err := f.File.ReadAt(q, off)
 	if err == nil && n < len(p) {
